@@ -216,6 +216,17 @@ func c04VM(w *fw.W, idx int, r *fw.Rand) {
 	fam := r.Intn(6)
 	var src string
 	var check func(total int64, text string, drawn []int64) string
+	// parameters of pool dice may themselves be dice terms: nested terms with a deterministic
+	// value (every die of a one-sided pool shows 1) keep the rule check exact
+	nested := false
+	wp := func(v int64) string {
+		if v >= 1 && v <= 300 && r.P(1, 8) {
+			nested = true
+			return r.Pick([]string{fmt.Sprintf("(%da11m1k1)", v), fmt.Sprintf("(%dd1)", v), fmt.Sprintf("(%da0m1q1)", v), fmt.Sprintf("(1c11m1 + %d)", v-1)})
+		}
+		return wrapNum(r, v)
+	}
+	_ = wp
 	switch fam {
 	case 0, 1:
 		times := fw.PickT(r, []int64{1, 2, 3, 4, 5, 6, 15, 100, 200, 201, 300, 1000})
@@ -282,21 +293,21 @@ func c04VM(w *fw.W, idx int, r *fw.Rand) {
 		th := int64(8)
 		ge := true
 		add := fw.PickT(r, []int64{0, 5, 8, 9, 10, 11})
-		src = wrapNum(r, pool) + r.Pick([]string{"a", "A"}) + wrapNum(r, add)
+		src = wp(pool) + r.Pick([]string{"a", "A"}) + wp(add)
 		if pool == 1 && r.P(1, 3) {
-			src = "a" + wrapNum(r, add)
+			src = "a" + wp(add)
 		}
 		if r.Bool() {
 			points = fw.PickT(r, []int64{6, 10, 20, 100})
-			src += r.Pick([]string{"m", "M"}) + wrapNum(r, points)
+			src += r.Pick([]string{"m", "M"}) + wp(points)
 		}
 		if r.Bool() {
 			th = fw.PickT(r, []int64{1, 5, 8, points})
 			if r.Bool() {
-				src += r.Pick([]string{"k", "K"}) + wrapNum(r, th)
+				src += r.Pick([]string{"k", "K"}) + wp(th)
 			} else {
 				ge = false
-				src += r.Pick([]string{"q", "Q"}) + wrapNum(r, th)
+				src += r.Pick([]string{"q", "Q"}) + wp(th)
 			}
 		}
 		if add != 0 && add*3 <= points*2 {
@@ -310,10 +321,10 @@ func c04VM(w *fw.W, idx int, r *fw.Rand) {
 		pool := fw.PickT(r, []int64{1, 2, 5, 14, 15, 16, 100})
 		points := int64(10)
 		add := fw.PickT(r, []int64{5, 8, 9, 10, 11, 12, 13, 15, 19, 20})
-		src = wrapNum(r, pool) + r.Pick([]string{"c", "C"}) + wrapNum(r, add)
+		src = wp(pool) + r.Pick([]string{"c", "C"}) + wp(add)
 		if r.Bool() {
 			points = fw.PickT(r, []int64{6, 10, 12, 20})
-			src += r.Pick([]string{"m", "M"}) + wrapNum(r, points)
+			src += r.Pick([]string{"m", "M"}) + wp(points)
 		}
 		if add*3 <= points*2 {
 			src, add, pool, points = "4c8", 8, 4, 10
@@ -372,7 +383,12 @@ func c04VM(w *fw.W, idx int, r *fw.Rand) {
 	if span.Ret == nil || Canon(span.Ret) != Canon(vm.Ret) {
 		w.Violate(idx, "dice-rule", "dice|vm|span-ret", desc, fmt.Sprintf("span value %s differs from result %s", Canon(span.Ret), Canon(vm.Ret)), nil)
 	}
-	if bad := check(int64(total), span.Text, tap.drawn); bad != "" {
+	drawn := tap.drawn
+	if nested {
+		drawn = nil // the tap also saw the dice of the parameter terms
+		w.Count("vm_terms_with_dice_parameters", 1)
+	}
+	if bad := check(int64(total), span.Text, drawn); bad != "" {
 		w.Violate(idx, "dice-rule", "dice|vm|"+span.Tag+"|"+classOf(bad), desc, bad+" ; detail text "+span.Text, nil)
 	}
 	w.Count("dice_drawn", int64(len(tap.drawn)))
